@@ -102,6 +102,12 @@ impl Builder {
         self.st.push(Ty::I);
     }
     fn push_bytes(&mut self, p: u64) {
+        if p % 11 == 0 && (p >> 40) % 2 == 0 {
+            // the empty string, spelled with its own opcode
+            self.ops.push(ROp::BEmpty);
+            self.st.push(Ty::B);
+            return;
+        }
         self.ops.push(ROp::PushB(interesting_bytes(p)));
         self.st.push(Ty::B);
     }
@@ -216,6 +222,34 @@ pub fn build_program(choices: &[(u8, u64)]) -> Vec<ROp> {
             }
             21 => {
                 // sigeok: sig, pk, msg (msg on top)
+                if (p >> 7) % 3 != 0 {
+                    // a genuine signature by one of the harness keys, so that the accepting path runs too: message
+                    // length bound exactly met / one short / generous, sometimes one bit of the signature flipped,
+                    // sometimes the wrong key, sometimes padded key or signature
+                    let msg = interesting_bytes(p >> 5);
+                    let (pk, sk) = crate::util::key(((p >> 9) % 4) as usize);
+                    let mut sig = sk.sign(&msg);
+                    let mut pkb = pk.0.to_vec();
+                    match (p >> 12) % 8 {
+                        0 => sig[((p >> 16) % 64) as usize] ^= 1 << ((p >> 24) % 8),
+                        1 => pkb = crate::util::key(((p >> 9) % 4) as usize + 1).0 .0.to_vec(),
+                        2 => sig.push(0),
+                        3 => pkb.push(0),
+                        _ => {}
+                    }
+                    let n = match (p >> 28) % 4 {
+                        0 => msg.len() as u16,
+                        1 => (msg.len() as u16).saturating_sub(1),
+                        2 => msg.len() as u16 + 1,
+                        _ => 65535,
+                    };
+                    b.ops.push(ROp::PushB(sig));
+                    b.ops.push(ROp::PushB(pkb));
+                    b.ops.push(ROp::PushB(msg));
+                    b.ops.push(ROp::SigEOk(n));
+                    b.st.push(Ty::I);
+                    continue;
+                }
                 b.push_bytes(7); // 64-byte class index 7 -> len 64
                 b.push_bytes(4 + 11 * (p % 3)); // 32 / 32.. vary
                 b.push_bytes(p >> 5);
